@@ -195,12 +195,27 @@ class Editor:
                                     'move_def', 'rename_def', 'swap_lines', 'delete_block', 'append_use']
         if self.standalone:
             kinds = [x for x in kinds if x != 'paste'] + ['drop_header'] * 5 + ['insert_header'] * 2
+        else:
+            kinds = kinds + ['toggle_star'] * 3
         if getattr(self, 'near_limit', False):
             kinds = kinds + ['grow_tail'] * 8
         k = rng.choice(kinds)
         if not L:
             k = 'insert_line'
-        if k == 'insert_line':
+        if k == 'toggle_star':
+            # a star import appears / disappears / changes its target; the names it brings are used below
+            star = [i for i, l in enumerate(L) if l.startswith('from ') and l.endswith(' import *')]
+            tops = [m for m in self.mods if '.' not in m] or list(self.mods)
+            if star and rng.random() < 0.5:
+                del L[star[0]]
+            elif star:
+                L[star[0]] = 'from %s import *' % rng.choice(tops)
+            else:
+                L.insert(0, 'from %s import *' % rng.choice(tops))
+            if not any(l == 'NAME_' for l in L):
+                L.append('NAME_')
+                L.append('func(1)')
+        elif k == 'insert_line':
             L.insert(rng.randint(0, len(L)), self.fresh_stmt())
         elif k == 'delete_line':
             del L[rng.randrange(len(L))]
